@@ -43,6 +43,10 @@ RULE = (
     '(3 thorough), enumerated completely; seeded random lists of 1-5 printable '
     'strings (ASCII 0x20-0x7e, tab, some non-ASCII; the cmd.exe metacharacters '
     '& | < > ^ % are never generated); jbos/shell_literal/path combinations; '
+    'split() on every line of length <= 6 (8 thorough) over the same alphabet and '
+    'on seeded random lines built from alternating bare/quoted segments, "" inside '
+    'quotes, backslash runs, odd quote counts and tab/multi-blank separators, '
+    'against the reference parser; '
     'generated msbuild projects with 8-10 steps of 1-4 hostile arguments each. '
     'solutions: histories of 5-9 configure/regenerate runs over scripts of 3-9 '
     'steps with 1-3 edits between runs; every 4th history additionally injects, at '
@@ -117,6 +121,10 @@ def floors(tier):
         'inner_quote:msvcrt': 20000 if q else 300000,
         'jbos:shell': 200 if q else 4000,
         'jbos:ninja': 300 if q else 5000,
+        'jbos:split-inverse': 500 if q else 10000,
+        'split:msvcrt-lines': 20000 if q else 450000,
+        'split:agrees-with-both-runtimes': 15000 if q else 300000,
+        'split:agrees-without-doubled-quote-rule': 500 if q else 10000,
         'ninja:cmd-wrap': 50 if q else 800,
         'lines:join_lines': 50 if q else 800,
         'proj:configure': 15 if q else 250,
@@ -230,6 +238,54 @@ def gen_wrap_item(rng):
             args = [a.replace('"', "'") for a in args]
         lines.append(args)
     return {'ctx': rng.choice(['ninja-wrap', 'lines']), 'lines': lines}
+
+
+def rand_line(rng):
+    """A command line that is *not* a join() output: arguments made of
+    alternating bare and quoted segments, `""` inside quotes, backslash runs
+    before quotes, odd quote counts, tabs and multiple blanks between
+    arguments."""
+    plain = [c for c in 'abcXYZ019-_=/.:,;+@#~\'()[]{}!$?*' ]
+
+    def text(n, blanks):
+        out = []
+        for _ in range(n):
+            r = rng.random()
+            if r < 0.12:
+                out.append('\\' * rng.randint(1, 4))
+            elif r < 0.2:
+                out.append('\\' * rng.randint(0, 3) + '\\"')
+            elif r < 0.35 and blanks:
+                out.append(rng.choice([' ', ' ', '\t', '  ']))
+            elif r < 0.4 and blanks:
+                out.append('""')
+            else:
+                out.append(rng.choice(plain))
+        return ''.join(out)
+
+    args = []
+    for _ in range(rng.randint(1, 4)):
+        segs = []
+        quoted = rng.random() < 0.5
+        for _ in range(rng.randint(1, 4)):
+            if quoted:
+                segs.append('"' + text(rng.randint(0, 5), True) +
+                            rng.choice(['', '\\\\', '\\\\\\\\']) + '"')
+            else:
+                segs.append(text(rng.randint(1, 4), False))
+            quoted = not quoted
+        args.append(''.join(segs))
+    line = args[0]
+    for a in args[1:]:
+        line += rng.choice([' ', ' ', '  ', '\t', ' \t ']) + a
+    r = rng.random()
+    if r < 0.1:
+        line = rng.choice([' ', '\t']) + line
+    elif r < 0.2:
+        line += rng.choice([' ', '\t', '  '])
+    elif r < 0.3:
+        line += rng.choice(['"', '"x y', '\\', '\\\\'])     # odd quote / trailing \
+    return line
 
 
 SRC_FILES = ['in file.txt', 'sub/plain.txt']
@@ -652,6 +708,16 @@ def cases(tier, seed):
         yield {'kind': 'lists', 'keys': True, 'sample': i == 0,
                'lists': [[rand_string(r) for _ in range(r.randint(1, 5))]
                          for _ in range(150 if q else 250)]}
+    Ls = 6 if q else 8
+    ns = count_upto(k, Ls)
+    chunk = 2000 if q else 16000
+    for lo in range(0, ns, chunk):
+        yield {'kind': 'splitenum', 'alpha': ALPHA, 'lo': lo,
+               'hi': min(ns, lo + chunk), 'keys': False}
+    for i in range(10 if q else 100):
+        r = core.rng_for(seed, 'c20split', i)
+        yield {'kind': 'splitlines', 'sample': i == 0,
+               'lines': [rand_line(r) for _ in range(400 if q else 1000)]}
     for i in range(6 if q else 60):
         r = core.rng_for(seed, 'c20jbos', i)
         items = [gen_jbos_item(r) for _ in range(150 if q else 300)]
@@ -853,6 +919,72 @@ def run_lists(case):
 
 
 # --------------------------------------------------------------------------
+# (1a') split() on arbitrary lines against the reference parser
+
+NO_DDQ = ('split() implements the MS C runtime rules without the `""`-inside-'
+          'quotes rule (on which the pre- and post-2008 runtimes themselves '
+          'differ): lines where that rule fires are compared with the reference '
+          'parser run without it, not with either runtime')
+
+
+def check_split_line(res, W, line):
+    sub = {'kind': 'splitlines', 'lines': [line]}
+    try:
+        got = W.split(line)
+    except Exception as e:
+        res.violate(('api-raised', 'split', type(e).__name__),
+                    {'line': line, 'error': repr(e), '__case__': sub})
+        return
+    post = M.parse('prog ' + line, 'post2008')[1:]
+    pre = M.parse('prog ' + line, 'pre2008')[1:]
+    plain = M.parse('prog ' + line, 'no-doubled-quote')[1:]
+    if got == post and got == pre:
+        res.ev('split:agrees-with-both-runtimes')
+        return
+    if got == plain:
+        # only the `""` rule separates split() from the runtimes here
+        res.ev('split:agrees-without-doubled-quote-rule')
+        res.exclude(NO_DDQ)
+        return
+    wit = {'line': line, 'split': got, 'msvcrt_post2008': post,
+           'msvcrt_pre2008': pre, '__case__': sub}
+    stripped = line.rstrip('\\')
+    if stripped != line and \
+       got == M.parse('prog ' + stripped, 'no-doubled-quote')[1:]:
+        res.violate(('split', 'msvcrt-deviation', 'trailing-backslashes-dropped'),
+                    dict(wit, dropped=len(line) - len(stripped)))
+    elif len(got) != len(plain):
+        res.violate(('split', 'msvcrt-deviation', 'argument-count'), wit)
+    else:
+        res.violate(('split', 'msvcrt-deviation', 'argument-text'), wit)
+
+
+def run_split(case):
+    from bfg9000.shell import windows as W
+    res = Res()
+    if case['kind'] == 'splitenum':
+        lines = [nth_string(case['alpha'], i)
+                 for i in range(case['lo'], case['hi'])]
+        res.key(['splitenum', case['lo'], case['hi']], True)
+        res.ev('enum:split-lines', len(lines))
+        res.classes.add('split:enumerated-lines')
+    else:
+        lines = case['lines']
+        res.classes.add('split:random-structured-lines')
+    for line in lines:
+        res.evaluations += 1
+        check_split_line(res, W, line)
+        if case['kind'] == 'splitlines':
+            res.key(['line', line], True)
+    res.ev('split:msvcrt-lines', len(lines))
+    if case.get('sample') and lines:
+        ln = lines[len(lines) // 2]
+        res.sample = {'kind': 'split', 'line': ln, 'split': W.split(ln),
+                      'msvcrt': both_variants(ln)}
+    return res
+
+
+# --------------------------------------------------------------------------
 # (1b) jbos / path combinations; the Ninja writer with the Windows shell
 
 def path_alternatives(root, suffix):
@@ -929,6 +1061,22 @@ def run_jbos(case):
                             {'bits': bits, 'error': repr(e), '__case__': sub})
                 continue
             res.ev('jbos:' + ctx)
+            if ctx == 'shell':
+                # split is the inverse of join also when an argument is a
+                # quoted string with a shell_literal glued to it
+                for tail in (['baz'], ['b z', 'q'], []):
+                    res.ev('jbos:split-inverse')
+                    try:
+                        line = W.join([thing] + tail)
+                        back = W.split(line)
+                    except Exception as e:
+                        back, line = 'EXC ' + repr(e), None
+                    if back != [alts[0]] + tail:
+                        res.violate(('split', 'not-inverse-of-join', 'jbos'),
+                                    {'bits': bits, 'tail': tail, 'line': line,
+                                     'split': back, 'expected': [alts[0]] + tail,
+                                     '__case__': sub})
+                        break
             got = both_variants(text)
             bad = [v for v in M.VARIANTS
                    if not (len(got[v]) == 1 and got[v][0] in alts)]
@@ -1619,6 +1767,8 @@ def run_case(case):
         return run_lists(case)
     if kind == 'jbos':
         return run_jbos(case)
+    if kind in ('splitenum', 'splitlines'):
+        return run_split(case)
     if kind == 'proj':
         return run_proj(case)
     if kind == 'hist':
